@@ -645,6 +645,47 @@ def orc_c05(case, obs):
     return bad
 
 
+
+def full_list_exits(rng, prefix, n):
+    """an open reassembly, the free list refilled to capacity (slots + 2), then each error exit that has to give the
+    reassembly buffer back: larger first fragment on the same / an aliasing id, oversize intermediate, end fragment with a
+    wrong total length, with a wrong CRC, with too much payload"""
+    out = []
+    for i in range(n):
+        c = Case("%s_full%d" % (prefix, i))
+        slots = rng.choice([1, 1, 2, 3])
+        maxpdu = rng.choice([4, 8, 16])
+        lab = rng.choice([L6A, L3A, "B"])
+        ll = len(label_bytes(lab))
+        fid = rng.below(256)
+        c.add("DNEW %d %d simple" % (slots, maxpdu))
+        for k in range(slots + 2):
+            c.add("DPROV %d" % (maxpdu + k))
+        pl = rng.range(2, maxpdu)
+        data = rng.bytes(pl)
+        first = rng.range(0, pl - 1)
+        total = pl + 2 + ll
+        c.add("DECAP %s" % hx(build_first(fid, total, 0x0800, lab, data[:first])))
+        c.add("DPROV %d" % (maxpdu + 50), "DPROV %d" % (maxpdu + 51))          # the second one must be refused: the list is full
+        kind = rng.below(6)
+        if kind == 0:
+            g = rng.choice([fid, (fid + slots) % 256])
+            c.add("DECAP %s" % hx(build_first(g, 200, 0x0800, lab, rng.bytes(maxpdu + slots + 60))))
+        elif kind == 1:
+            c.add("DECAP %s" % hx(build_inter(fid, rng.bytes(maxpdu + slots + 60))))
+        elif kind == 2:
+            c.add("DECAP %s" % hx(build_end(fid, data[first:] + rng.bytes(1), gse_crc(data, 0x0800, total, label_bytes(lab)))))
+        elif kind == 3:
+            c.add("DECAP %s" % hx(build_end(fid, data[first:], gse_crc(data, 0x0800, total, label_bytes(lab)) ^ 0x10)))
+        elif kind == 4:
+            c.add("DECAP %s" % hx(build_end(fid, rng.bytes(maxpdu + slots + 60), 0)))
+        else:
+            c.add("DECAP %s" % hx(build_end(fid, data[first:], gse_crc(data, 0x0800, total, label_bytes(lab)))))   # the good case
+        c.add("DOBS", "DECAP %s" % hx(build_complete(0x0800, "B", rng.bytes(2))), "DOBS")
+        out.append(c)
+    return out
+
+
 def gen_c05(rng, t):
     out = []
     # every buffer of length 0..2 against receivers in several states
@@ -674,6 +715,7 @@ def gen_c05(rng, t):
             if rng.chance(0.05):
                 c.add("DPROVBACK")
         out.append(c)
+    out.extend(full_list_exits(rng, "c05", 60 * t))
     return out
 
 
@@ -768,6 +810,8 @@ def gen_c08(rng, t):
                 c.add("DOBS")
         c.add("DOBS")
         out.append(c)
+    out.extend(big_trains(rng, "c08"))
+    out.extend(full_list_exits(rng, "c08", 60 * t))
     return out
 
 
@@ -842,7 +886,7 @@ def orc_c01(case, obs):
     return bad
 
 
-prop("C01", ["c01_roundtrip", "c01_must_complete"], ["ENC", "SYS"], gen_c01, [orc_c01])
+prop("C01", ["c01_roundtrip", "c01_must_complete"], ["ENC", "SYS"], gen_c01, [orc_c01], positional_meta=True)
 
 
 def gen_c02(rng, t):
@@ -1118,7 +1162,7 @@ def gen_c07(rng, t):
     out = []
     for i in range(500 * t):
         c = Case("c07_%d" % i)
-        slots = rng.choice([2, 3, 4, 5])
+        slots = rng.choice([2, 3, 4, 5] * 5 + [255, 256])
         ntr = rng.range(2, min(4, slots))
         maxpdu = 48
         c.add("DNEW %d %d simple" % (slots, maxpdu))
@@ -1127,12 +1171,13 @@ def gen_c07(rng, t):
             c.add("DPROV %d" % (maxpdu + k))
         base = rng.below(200)
         ids = rng.fork()
-        fids = []
+        fids = [0, 255] if slots == 256 else ([0, 254] if slots == 255 else [])
         while len(fids) < ntr:
-            f = (base + ids.below(slots * 3)) % 256
+            f = (base + ids.below(min(slots, 64) * 3)) % 256
             if all(f % slots != g % slots for g in fids):
                 fids.append(f)
         trains, exp = [], {}
+        reuse_mode = (i % 5 == 3)      # the label memory is shared by all reassemblies: strays must not disturb it either
         for f in fids:
             pl = rng.range(2, maxpdu)
             pdu = rng.bytes(pl)
@@ -1147,13 +1192,16 @@ def gen_c07(rng, t):
                 left -= s
             if not sizes:
                 sizes = [0]
-            lab = rng.choice([L6A, L3A, "B", L6B])
+            lab = rng.choice([L6A, L3A, "B", L6B]) if not reuse_mode else L6A
             pt = rng.choice([0x0800, 0x86DD])
-            trains.append([(f, p) for p in fragment(pdu, f, pt, lab, sizes)])
+            trains.append([(f, p) for p in fragment(pdu, f, pt, lab, sizes, wire_label=("R" if reuse_mode and trains else None))])
             exp[f] = (pdu, pt, lab)
         # order-preserving merge
         seq = []
         pos = [0] * ntr
+        if reuse_mode:
+            seq.append(("own",) + trains[0][0])       # the packet that carries the label comes first
+            pos[0] = 1
         while any(pos[k] < len(trains[k]) for k in range(ntr)):
             k = rng.choice([k for k in range(ntr) if pos[k] < len(trains[k])])
             seq.append(("own",) + trains[k][pos[k]])
@@ -1162,21 +1210,26 @@ def gen_c07(rng, t):
         nstray = rng.range(0, 6)
         free_slots = [x for x in range(slots) if all(f % slots != x for f in fids)]
         for _ in range(nstray):
-            r = rng.below(6)
+            r = rng.below(6) if not reuse_mode else rng.choice([0, 1, 1] + ([4] if free_slots else []))
             f = rng.choice(fids)
+            def foreign(g):       # an id that is not one of the trains' own (with >= 128 slots f + slots wraps onto real ids)
+                g %= 256
+                while g in fids:
+                    g = (g + 1) % 256
+                return g
             if r == 0:
-                p = build_inter((f + slots) % 256, rng.bytes(3))
+                p = build_inter(foreign(f + slots), rng.bytes(3))
             elif r == 1:
-                p = build_end((f + slots * 2) % 256, rng.bytes(2), rng.below(1 << 32))
+                p = build_end(foreign(f + slots * 2), rng.bytes(2), rng.below(1 << 32))
             elif r == 2:
                 p = build_complete(0x0800, rng.choice(["B", L6A]), rng.bytes(rng.range(0, 10)))
             elif r == 3:
                 p = rng.bytes(rng.range(0, 6))
             elif r == 4 and free_slots:
-                p = build_inter(rng.choice(free_slots), rng.bytes(4))
+                p = build_inter(foreign(rng.choice(free_slots)), rng.bytes(4))
             else:
                 p = b"\x00\x00\x00"
-            seq.insert(rng.below(len(seq) + 1), ("stray", None, p))
+            seq.insert(rng.range(1, len(seq)) if reuse_mode else rng.below(len(seq) + 1), ("stray", None, p))
         c.meta["c07"] = {"exp": {f: (hx(v[0]), v[1], v[2]) for f, v in exp.items()}, "kinds": []}
         for kind, f, p in seq:
             c.add("DECAP %s" % hx(p))
@@ -1193,12 +1246,13 @@ def orc_c07(case, obs):
     if not m:
         return bad
     delivered = Counter()
+    exp = {int(k): v for k, v in m["exp"].items()}      # keys are strings after the JSON round trip of a replay file
     for kind, f, idx in m["kinds"]:
         ob = obs[idx]
         if kind != "own":
             continue
         w, d = kv(ob)
-        pdu, pt, lab = m["exp"][f]
+        pdu, pt, lab = exp[f]
         p = parse_packet(tok_bytes(case.ops[idx].split(" ")[1]))
         if p.kind == "E":
             if w[:2] != ["ok", "completed"] or d.get("data") != pdu or int(d.get("ptype", -1)) != pt or d.get("label") != lab:
@@ -1208,13 +1262,13 @@ def orc_c07(case, obs):
         else:
             if w[:2] != ["ok", "fragmented"] or int(d.get("ptype", -1)) != pt or d.get("label") != lab:
                 bad.append("train of frag id %d: %s fragment answered %s" % (f, p.kind, ob[:100]))
-    for f in m["exp"]:
+    for f in exp:
         if delivered[f] != 1 and not bad:
             bad.append("PDU of frag id %d delivered %d times" % (f, delivered[f]))
     return bad
 
 
-prop("C07", ["c07_frame", "c07_interleave", "c07_first_establishes"], ["DEC", "MEM"], gen_c07, [orc_c07])
+prop("C07", ["c07_frame", "c07_interleave", "c07_first_establishes"], ["DEC", "MEM"], gen_c07, [orc_c07], positional_meta=True)
 
 
 # ------------------------------------------------------------------------------------------------
@@ -1263,6 +1317,7 @@ def gen_c16(rng, t):
                 c.add("EFRAGC %d 1" % rng.choice([13, 20, 100]), "DECAPN -")
         c.meta["c16"] = rec
         out.append(c)
+    out.extend(full_list_exits(rng, "c16", 60 * t))
     return out
 
 
@@ -1288,7 +1343,7 @@ def orc_c16(case, obs):
     return bad
 
 
-prop("C16", ["c16_ready", "c16_complete", "c16_fragmented"], ["DEC"], gen_c16, [orc_c16])
+prop("C16", ["c16_ready", "c16_complete", "c16_fragmented"], ["DEC"], gen_c16, [orc_c16], positional_meta=True)
 
 
 # ------------------------------------------------------------------------------------------------
@@ -1298,7 +1353,7 @@ def gen_c04(rng, t):
     out = []
     for i in range(700 * t):
         c = Case("c04_%d" % i)
-        c.add("ENEW", "DNEW 4 64 %s" % MGR_ALL)
+        c.add("ENEW", "DNEW 4 64 %s" % (MGR_ALL if i % 5 else "tab:0005=N9;0007=N4;0042=N5;0081=F0;0082=F0;0033=F2"))
         for k in range(6):
             c.add("DPROV %d" % (64 + k))
         labs = [L6A, L6A, L6A, L6B, L3A, "B", "R"]
@@ -1308,8 +1363,11 @@ def gen_c04(rng, t):
                 lab = rng.choice(labs)
                 kind = rng.below(12)
                 pl = rng.range(0, 40)
-                if kind < 6:
+                if kind < 5:
                     c.add("ENCAP %s %d 2048 %s 80 1" % (pdu_tok(rng, pl), rng.below(4), lab))
+                elif kind < 6:
+                    c.add("EEXT %s %d 2048 %s %d 1 %s" % (pdu_tok(rng, rng.range(0, 6)), rng.below(4), lab, rng.choice([90, 24]),
+                                                          exts_tok([(0x0005, b"\xaa\xbb\xcc")] + rand_chain(rng, maxn=1))))
                 elif kind < 8:
                     c.add("ENCAP %s %d 2048 %s %d 1" % (pdu_tok(rng, pl), rng.below(4), lab, rng.range(0, 14)))   # fails or fragments
                 elif kind < 9:
@@ -1398,6 +1456,40 @@ def burst(rng, data, lo_bit, hi_bit, maxlen=32):
     return bytes(b)
 
 
+
+def big_trains(rng, prefix):
+    """hand-built trains in a 70000-byte storage: (0) a legitimate PDU of the maximal 16-bit total length, (1) a train whose
+    intermediate fragments push the reassembly beyond 65535 bytes, (2) a train that carries announced + 65536 bytes with the
+    CRC of the bytes really sent; only (0) may be delivered, and the storage buffer is never lost"""
+    out = []
+    for variant in (0, 1, 2):
+        c = Case("%s_big%d" % (prefix, variant))
+        lab = rng.choice([L6A, L3A, "B"])
+        ll = len(label_bytes(lab))
+        fid = rng.below(256)
+        c.add("DNEW %d 70000 simple" % rng.choice([1, 2]), "DPROV 70000", "DPROV 70001")
+        if variant == 0:
+            n, total = 65535 - 2 - ll, 65535
+        elif variant == 1:
+            n, total = 65535 - 2 - ll + rng.range(1, 300), 65535
+        else:
+            total = rng.choice([1000, 105, 2 + ll + 1])
+            n = total - 2 - ll + 65536
+        data = gen_bytes(n, rng.below(1 << 30))
+        crc = gse_crc(data, 0x0800, total, label_bytes(lab))
+        off = rng.range(0, 4000)
+        c.add("DECAP %s" % hx(build_first(fid, total, 0x0800, lab, data[:off])))
+        while n - off > 4090:
+            k = rng.choice([4094, 4094, rng.range(1, 4094)])
+            k = min(k, n - off - 1)
+            c.add("DECAP %s" % hx(build_inter(fid, data[off:off + k])))
+            off += k
+        c.add("DECAP %s" % hx(build_end(fid, data[off:], crc)), "DOBS")
+        c.meta["c03"] = {"pdu": hx(data), "burst": False, "ptype": 0x0800}
+        out.append(c)
+    return out
+
+
 def gen_c03(rng, t):
     out = []
     for i in range(700 * t):
@@ -1469,6 +1561,7 @@ def gen_c03(rng, t):
             c.add("DECAP %s" % hx(p))
         c.meta["c03"] = {"pdu": hx(pdu), "burst": protected_only, "ptype": pt}
         out.append(c)
+    out.extend(big_trains(rng, "c03"))
     return out
 
 
@@ -1522,7 +1615,7 @@ def orc_c03(case, obs):
     return bad
 
 
-prop("C03", ["c03_history_invariant", "c03_verified_only", "c03_train_opened", "c03_length_exact", "c03_burst_detected"], ["DEC"], gen_c03, [orc_c03])
+prop("C03", ["c03_history_invariant", "c03_verified_only", "c03_train_opened", "c03_length_exact", "c03_history_bytes", "c03_burst_detected"], ["DEC"], gen_c03, [orc_c03])
 
 
 # ------------------------------------------------------------------------------------------------
